@@ -9,6 +9,20 @@ TB = ("TLC 1.8 and the hand-written specification (spec/*.tla); the conformance 
       "inputs by the small-scope arguments of DESIGN.md 2.5")
 
 CHECKS = {
+ "C01": ("model_checking", "TLC checks on every enumerated knot vector that the Cox-de Boor definition has local support, partition of unity, C^{p-mu} smoothness, non-negativity and the integral identity, and that the implementation-shaped recursion (zeroth order via findElement, then prefac*(X<1>-t_i)*B_i += ...) refines it; the real generator (both routes and the free function, exact scalar) runs every knot vector and TLC accepts the logged basis iff GenPost holds.", "5 C01",
+         "TLA+ spec of the Cox-de Boor recursion + TLC model checking of its theorems and of the implementation-shaped model + trace validation of generated bases from the real code"),
+ "C04": ("model_checking", "TLC checks falling-factorial derivative and binomial position expansion (Level I) against d^n/du^n and n-fold multiplication by (u+xm) (Level A); the real Dx<n>, X<n>, IdentityOperator are applied with the exact scalar to unit-vector and generic splines on every window incl. an off-origin grid and validated by TLC.", "5 C04",
+         "TLA+ spec + TLC model checking + trace validation of TLC-enumerated (operator, spline) cases compiled from the spec's ASTs"),
+ "C05": ("model_checking", "Every AST TLC enumerates (all depth<=2 trees over Id, X, Dx, spline factor and scalars of type T/int/unsigned in every position, plus named identities) is compiled as the C++ expression it spells and applied to TLC-enumerated operand/factor placements; TLC validates each result against DenApply (structural recursion on textbook definitions) after checking that the implementation-shaped TransformI refines it.", "5 C05",
+         "TLA+ spec of operator ASTs + TLC model checking + generated C++ per AST + trace validation"),
+ "C06": ("model_checking", "TLC checks the kernel model (even-power collection, Horner in h^2) against the antiderivative integral of the DenApply product, symmetry and BF = LF(product); BilinearForm{O1,O2}(a,b) of the real code (exact scalar) is validated per event against the exact integral, with swapped pairs.", "5 C06",
+         "TLA+ spec + TLC model checking + trace validation of bilinear forms on TLC-enumerated operator/spline pairs"),
+ "C07": ("model_checking", "As C06 for LinearForm{O}(a) on every OpApply case, plus the relation BF(O1,O2)(a,b) = LF_id((O1 a)*(O2 b)) between three results of the real code on every OpBF case.", "5 C07",
+         "TLA+ spec + TLC model checking + trace validation of linear forms and of the BF/LF relation"),
+ "C11": ("model_checking", "TLC checks Accepts <=> Valid for the validity scans of grids, supports, splines and knot vectors and emits every short sequence / index pair / count mismatch; accepted/refused and the exception type of the real code are validated per event (exact scalar; special floating values are handled in the floating family).", "5 C11",
+         "TLA+ spec + TLC model checking of the validity predicates + trace validation of accept/refuse outcomes"),
+ "C19": ("other", "The exact-archetype build is the check: harness/c19_inst.cpp instantiates and uses every core template and the generic interpolate with a scalar offering only the documented operations, compiled with g++ and clang++; a compile error while double compiles is the violation. A cross-section of all exact conformance families is replayed with every contract enabled (results exact).", "5 C19",
+         "compile the library against a minimal exact scalar archetype (the C++ mirror of the spec's scalar signature) + exact replay of TLC-generated cases"),
  "C02": ("model_checking", "TLC explores MC_Spl (Level-I evaluation model => Level-A EvalPost on every explored case) and emits the cases; the real operator()/front()/back() are run with the exact scalar Rat on every case and TLC (Trace_Stateless, view C02) accepts each recorded event only if EvalPost holds between logged spline, abscissa and value. Exhaustive over all windows of the domain grids, orders, coefficient variants incl. discontinuous pieces, and probes in every region.", "5 C02",
          "TLA+ spec + TLC model checking (I=>A) + TLC-generated cases replayed in the real code, events validated by TLC against the Level-A contract"),
  "C03": ("model_checking", "TLC checks that the implementation-shaped models of + - * scalar ops, cross-order assignment and linearCombination satisfy the Den-level contracts on every explored operand pair, and emits the pairs; the real operators (exact scalar) execute every case and TLC validates every recorded result against the contract (view C03).", "5 C03",
